@@ -465,6 +465,7 @@ pub struct Batch {
     pub samples: Vec<Json>,
     pub determinism_reexecuted: u64,
     pub determinism_mismatches: u64,
+    pub hashes: Vec<u64>,
 }
 
 /// Seeded search: `runs` scenarios from the root seed.
@@ -491,7 +492,7 @@ pub fn batch(root: u64, runs: u64, workers: usize) -> Batch {
         One { stats, failure: r.err().map(|f| (ops, f)), sample, log_hash }
     };
     let results = crate::util::run_pool(runs, workers, one);
-    let mut b = Batch { runs, ops: 0, gcs: 0, gcs_freeing_proper_subset: 0, gcs_freeing_cycle: 0, distinct_sigs: 0, probes: BTreeMap::new(), violations: Vec::new(), samples: Vec::new(), determinism_reexecuted: 0, determinism_mismatches: 0 };
+    let mut b = Batch { runs, ops: 0, gcs: 0, gcs_freeing_proper_subset: 0, gcs_freeing_cycle: 0, distinct_sigs: 0, probes: BTreeMap::new(), violations: Vec::new(), samples: Vec::new(), determinism_reexecuted: 0, determinism_mismatches: 0, hashes: results.iter().map(|r| r.log_hash).collect() };
     let mut sigs: std::collections::HashSet<u64> = std::collections::HashSet::new();
     let mut classes_seen: BTreeMap<String, u32> = BTreeMap::new();
     for (i, r) in results.iter().enumerate() {
